@@ -255,3 +255,66 @@ Section Hover.
   (* the server: GetLineComment, GetStrComment, ConvertStrToUtf8 *)
   Definition hover : list N -> list N -> Z -> Z -> Res hover_result := hover_with true (hover_doc gbk_decode).
 End Hover.
+
+(* ------------------------------------------------------------------ the variant with fix C13-long-comment-doc
+   (Model/Comments.v, flag fx): the same hover text computed on the comment map of lex_all_v fx. `hover_with` above is
+   the variant fx = false (Proofs/CommentsLong.v hover_with_v_false). *)
+Section HoverV.
+  Variable fx : bool.
+  Variable gbk_runes : list N -> Z.
+  Variable classify : list N -> numcls.
+  Variable gbk_decode : list N -> option (list N).
+
+  Definition hover_with_v (inherit : bool) (docf : list (Z * cinfo) -> Z -> list N) (file bs : list N) (line col : Z)
+    : Res hover_result :=
+    match lex_all_v fx gbk_runes bs with
+    | Fault k => Fault k
+    | OutOfFuel => OutOfFuel
+    | Ok ts =>
+      let ts' := parser_view ts in
+      match parse_tokens classify (fuel_of_tokens ts') ts', consumed_tokens classify ts' with
+      | Fault k, _ | _, Fault k => Fault k
+      | OutOfFuel, _ | _, OutOfFuel => OutOfFuel
+      | Ok PRTooMany, _ | _, Ok None => Ok (HSkip SkTooMany)
+      | Ok (PR b le pe), Ok (Some used) =>
+        let es := cm_writes used in
+        match le, pe with
+        | [], [] =>
+          if has_annotation es
+             || (match index_of_sub [45; 45; 45; 64] (raw_line bs (Z.to_nat (line + 1))) with Some _ => true | None => false end)
+          then Ok (HSkip SkAnnotation) else
+          if (match bs with 239 :: 187 :: 191 :: _ => true | _ => false end) && (line =? 0)%Z then Ok (HSkip SkBom) else
+          match ident_at ts line col with
+          | None => Ok (HSkip SkNoIdent)
+          | Some name =>
+            match top_decls name b with
+            | [] => Ok (HSkip SkNoDecl)
+            | [d] =>
+              match decl_chain 3 b d with
+              | None => Ok (HSkip SkValue)
+              | Some ds =>
+                let dl := last ds d in
+                match label_of (decl_is_local d) name dl with
+                | None => Ok (HSkip (match dl with DVar _ _ _ => SkValue | DFunc _ _ _ => SkFuncBody end))
+                | Some label =>
+                  (* the chain of definitions ends, for a function, in the function expression itself: its comment is
+                     looked up on the line its Loc ENDS on - the line of `end` (for a one-line function the name's line) *)
+                  let fdoc := match dl with
+                              | DFunc _ (EFunc _ _ _ _ _ fl _ _) _ => [docf es (el fl)]
+                              | _ => []
+                              end in
+                  let docs := map (fun x => docf es (el (decl_loc x))) (if inherit then ds else [d])
+                              ++ (if inherit then fdoc else []) in
+                  Ok (HText (hover_value label (first_nonempty docs) file))
+                end
+              end
+            | _ => Ok (HSkip SkAmbiguous)
+            end
+          end
+        | _, _ => Ok (HSkip SkFlagged)
+        end
+      end
+    end.
+
+  Definition hover_v : list N -> list N -> Z -> Z -> Res hover_result := hover_with_v true (hover_doc gbk_decode).
+End HoverV.
